@@ -218,11 +218,16 @@ class C10(S4UCheck):
         off_link = {n: t for t, (k, n) in faults if k == 'link'}
         ops, order = ops_of(recs)
         start, term, onexit, last_rec = {}, {}, {}, {}
+        reaped = None
         for r in recs:
             if r.t == 'S' and r.kind == 'actor_start':
                 start[r.aid] = r.clock
+            elif r.t == 'S' and r.kind == 'deadlock':
+                reaped = set()       # the actors still blocked when the deadlock is reported are reaped afterwards
             elif r.t == 'S' and r.kind == 'actor_term':
                 term.setdefault(r.aid, r.clock)
+                if reaped is not None:
+                    reaped.add(r.aid)
             elif r.t == 'S' and r.kind == 'on_exit':
                 onexit.setdefault(r.aid, []).append((r.clock, r.kv.get('failed')))
             elif r.t in ('C', 'R'):
@@ -382,7 +387,7 @@ class C10(S4UCheck):
         # (D) final state
         if deadlock:
             for r in recs:
-                if r.t == 'S' and r.kind == 'blocked' and r.aid not in term:
+                if r.t == 'S' and r.kind == 'blocked' and (r.aid not in term or r.aid in (reaped or ())):
                     o = ops.get((r.aid, int(r.kv['inc']), int(r.kv['op'])))
                     if o is None:
                         continue
